@@ -19,10 +19,12 @@ pub fn no_child(_: &[String]) -> i32 {
 }
 
 pub mod okey;
+pub mod extid;
 
 pub fn all() -> Vec<StreamDef> {
     vec![
         okey::def(),
+        extid::def(),
     ]
 }
 
